@@ -737,6 +737,8 @@ func ruleR9(c *Ctx) *RuleResult {
 			tgt := selfForward(fn)
 			if tgt != nil && tgt == ms[pair[1]] {
 				r.add(Obligation{Key: key, Rule: "R9a", Clause: clA, Pos: p.FuncPos(fn), Status: Discharged, Facts: "forwards to " + p.FuncKey(tgt)})
+			} else if other := ms[pair[1]]; other != nil && sameNormalForm(c, fn, other) {
+				r.add(Obligation{Key: key, Rule: "R9a", Clause: clA, Pos: p.FuncPos(fn), Status: Discharged, Facts: "not a call, but path for path the body of " + p.FuncKey(other) + " written out (equal normal forms)"})
 			} else {
 				r.add(Obligation{Key: key, Rule: "R9a", Clause: clA, Pos: p.FuncPos(fn), Status: Violated, Facts: pair[0] + " is not a pure forwarder to the receiver's " + pair[1]})
 			}
@@ -1217,6 +1219,39 @@ func fedByNodeChain(c *Ctx, ms map[string]*ssa.Function, fn *ssa.Function) bool 
 		}
 	}
 	return hasFirst && hasSucc
+}
+
+// sameNormalForm: two methods of one receiver type with the same parameters have, path for path, the same guarded commands
+// (epochs stripped, allocation names canonicalised).
+func sameNormalForm(c *Ctx, a, b *ssa.Function) bool {
+	ga, gb := c.GC(a), c.GC(b)
+	if ga.Undecided != "" || gb.Undecided != "" || len(ga.GCs) != len(gb.GCs) || len(ga.GCs) == 0 {
+		return false
+	}
+	norm := func(g *GCNF) []string {
+		var out []string
+		for _, x := range g.GCs {
+			y := canonAllocs(x)
+			var gs, es []string
+			for _, t := range y.Guards {
+				gs = append(gs, noEpoch(t))
+			}
+			sort.Strings(gs)
+			for _, t := range y.Effects {
+				es = append(es, noEpoch(t))
+			}
+			out = append(out, fmt.Sprintf("%d|%s|%s|%s", y.From, strings.Join(gs, "&"), strings.Join(es, ";"), noEpoch(y.Exit)))
+		}
+		sort.Strings(out)
+		return out
+	}
+	na, nb := norm(ga), norm(gb)
+	for i := range na {
+		if na[i] != nb[i] {
+			return false
+		}
+	}
+	return true
 }
 
 // ---- R6 MAPNONNIL ----
